@@ -109,3 +109,28 @@ mutant("c14-enc-raw-lit-bits", "C14", "C14.layout.literals-header", COMP, "    w
 benign("c14-comments-and-moves", "C14", SSD, "fn lookup_ll_code(code: u8) -> (u32, u8) {\n    match code {", "// moved\n\n\nfn lookup_ll_code(code: u8) -> (u32, u8) {\n    // table\n    match code {")
 benign("c14-split-arm", "C14", SSD, "0..=15 => (u32::from(code), 0),", "0..=7 => (u32::from(code), 0),\n        8..=15 => (code as u32, 0),")
 benign("c14-mask-before-shift", "C14", SEQS, "Self::decode_mode((self.0 >> 4) & 0x3)", "Self::decode_mode((self.0 & 0x30) >> 4)")
+
+# ---- C01 -------------------------------------------------------------------------------
+LSD = "ruzstd/src/decoding/literals_section_decoder.rs"
+BRR = "ruzstd/src/bit_io/bit_reader_reverse.rs"
+mutant("c01-init-order", "C01", "C01.order.sequence-bitstream", SSD,
+       "    ll_dec.init_state(br)?;\n    of_dec.init_state(br)?;\n    ml_dec.init_state(br)?;", "    ll_dec.init_state(br)?;\n    ml_dec.init_state(br)?;\n    of_dec.init_state(br)?;")
+mutant("c01-update-order", "C01", "C01.order.sequence-bitstream", SSD,
+       "            ll_dec.update_state(br);\n            ml_dec.update_state(br);\n            of_dec.update_state(br);", "            ll_dec.update_state(br);\n            of_dec.update_state(br);\n            ml_dec.update_state(br);")
+mutant("c01-triple-arg-order-rle", "C01", "C01.order.sequence-bitstream", SSD,
+       "let (obits, ml_add, ll_add) = br.get_bits_triple(of_code, ml_num_bits, ll_num_bits);\n        let offset = obits as u32 + (1u32 << of_code);\n\n        if offset == 0 {\n            return Err(DecodeSequenceError::ZeroOffset);\n        }\n\n        target.push(Sequence {\n            ll: ll_value + ll_add as u32,\n            ml: ml_value + ml_add as u32,\n            of: offset,\n        });\n\n        if target.len() < section.num_sequences as usize {\n            //println!(\n            //    \"Bits left: {} ({} bytes)\",\n            //    br.bits_remaining(),\n            //    br.bits_remaining() / 8,\n            //);\n            if scratch.ll_rle.is_none() {",
+       "let (obits, ll_add, ml_add) = br.get_bits_triple(of_code, ll_num_bits, ml_num_bits);\n        let offset = obits as u32 + (1u32 << of_code);\n\n        if offset == 0 {\n            return Err(DecodeSequenceError::ZeroOffset);\n        }\n\n        target.push(Sequence {\n            ll: ll_value + ll_add as u32,\n            ml: ml_value + ml_add as u32,\n            of: offset,\n        });\n\n        if target.len() < section.num_sequences as usize {\n            //println!(\n            //    \"Bits left: {} ({} bytes)\",\n            //    br.bits_remaining(),\n            //    br.bits_remaining() / 8,\n            //);\n            if scratch.ll_rle.is_none() {")
+mutant("c01-stale-rle-symbol", "C01", "C01.slots.mode-effects", SSD, "            vprintln!(\"Used bytes: {}\", bytes);\n            scratch.ll_rle = None;\n", "            vprintln!(\"Used bytes: {}\", bytes);\n")
+mutant("c01-predefined-wrong-acc", "C01", "C01.slots.mode-effects", SSD, "                OF_DEFAULT_ACC_LOG,\n", "                LL_DEFAULT_ACC_LOG,\n")
+mutant("c01-repeat-clears", "C01", "C01.slots.mode-effects", SSD, "            vprintln!(\"Repeat ml table\");\n            /* Nothing to do */", "            vprintln!(\"Repeat ml table\");\n            scratch.ml_rle = None;")
+mutant("c01-rle-block-size", "C01", "C01.table.dispatch", BLKD, ".extend_and_fill(buf[0], header.decompressed_size as usize);", ".extend_and_fill(buf[0], header.content_size as usize);")
+mutant("c01-rle-decompressed-table", "C01", "C01.table.dispatch", BLKD, "            BlockType::Raw => block_size,\n            BlockType::RLE => block_size,\n            BlockType::Reserved => 0, //should", "            BlockType::Raw => block_size,\n            BlockType::RLE => 1,\n            BlockType::Reserved => 0, //should")
+mutant("c01-jump-not-cumulative", "C01", "C01.layout.jump-table", LSD, "let jump3 = jump2 + source[4] as usize", "let jump3 = jump1 + source[4] as usize")
+mutant("c01-treeless-guard", "C01", "C01.slots.mode-effects", LSD, "LiteralsSectionType::Treeless if scratch.table.max_num_bits == 0 => {", "LiteralsSectionType::Treeless if scratch.table.max_num_bits == 12 => {")
+mutant("c01-peek-triple-shift", "C01", "C01.order.sequence-bitstream", BRR, "let shift_by1 = n3 + n2;", "let shift_by1 = n3 + n1;")
+mutant("c01-predefined-dist", "C01", "C01.table.predefined", SSD, "    1, 1, 1, 1, 1, 1, 2, 2, 2, 1, 1, 1, 1, 1, 1, 1, 1, 1, 1, 1, 1, 1, 1, 1, -1, -1, -1, -1, -1,", "    1, 1, 1, 1, 1, 1, 2, 2, 1, 2, 1, 1, 1, 1, 1, 1, 1, 1, 1, 1, 1, 1, 1, 1, -1, -1, -1, -1, -1,")
+mutant("c01-rle-literals-consumed", "C01", "C01.table.dispatch", LSD, "            target.resize(target.len() + section.regenerated_size as usize, source[0]);\n            Ok(1)", "            target.resize(target.len() + section.regenerated_size as usize, source[0]);\n            Ok(section.regenerated_size.min(1))")
+benign("c01-rename-decoders", "C01", SSD, "ll_dec", "lit_len_decoder", count=9)
+benign("c01-reorder-independent-lookups", "C01", SSD,
+       "        let (ll_value, ll_num_bits) = lookup_ll_code(ll_code);\n        let (ml_value, ml_num_bits) = lookup_ml_code(ml_code);\n\n        if of_code > MAX_OFFSET_CODE {\n            return Err(DecodeSequenceError::UnsupportedOffset {\n                offset_code: of_code,\n            });\n        }\n\n        let (obits, ml_add, ll_add) = br.get_bits_triple(of_code, ml_num_bits, ll_num_bits);\n        let offset = obits as u32 + (1u32 << of_code);\n\n        if offset == 0 {\n            return Err(DecodeSequenceError::ZeroOffset);\n        }\n\n        target.push(Sequence {\n            ll: ll_value + ll_add as u32,\n            ml: ml_value + ml_add as u32,\n            of: offset,\n        });\n\n        if target.len() < section.num_sequences as usize {\n            //println!(\n            //    \"Bits left: {} ({} bytes)\",\n            //    br.bits_remaining(),\n            //    br.bits_remaining() / 8,\n            //);\n            ll_dec.update_state(br);",
+       "        let (ml_value, ml_num_bits) = lookup_ml_code(ml_code);\n        let (ll_value, ll_num_bits) = lookup_ll_code(ll_code);\n\n        if of_code > MAX_OFFSET_CODE {\n            return Err(DecodeSequenceError::UnsupportedOffset {\n                offset_code: of_code,\n            });\n        }\n\n        let (obits, ml_add, ll_add) = br.get_bits_triple(of_code, ml_num_bits, ll_num_bits);\n        let offset = (1u32 << of_code) + obits as u32;\n\n        if offset == 0 {\n            return Err(DecodeSequenceError::ZeroOffset);\n        }\n\n        target.push(Sequence {\n            ll: ll_add as u32 + ll_value,\n            ml: ml_value + ml_add as u32,\n            of: offset,\n        });\n\n        if target.len() < section.num_sequences as usize {\n            //println!(\n            //    \"Bits left: {} ({} bytes)\",\n            //    br.bits_remaining(),\n            //    br.bits_remaining() / 8,\n            //);\n            ll_dec.update_state(br);")
